@@ -6,7 +6,6 @@ import (
 	"encoding/json"
 	"errors"
 	"fmt"
-	"reflect"
 	"strconv"
 	"strings"
 
@@ -68,7 +67,7 @@ func (c *Converter) ExpandUpdate(ctx context.Context, upd *sdcpb.Update, include
 		var v interface{}
 		var err error
 		var jsonDecoder *json.Decoder
-		switch upd.GetValue().Value.(type) {
+		switch upd.GetValue().GetValue().(type) {
 		case *sdcpb.TypedValue_JsonIetfVal:
 			jsonDecoder = json.NewDecoder(bytes.NewReader(upd.GetValue().GetJsonIetfVal()))
 		case *sdcpb.TypedValue_JsonVal:
@@ -95,7 +94,7 @@ func (c *Converter) ExpandUpdate(ctx context.Context, upd *sdcpb.Update, include
 		var err error
 
 		var jsonValue []byte
-		switch upd.GetValue().Value.(type) {
+		switch upd.GetValue().GetValue().(type) {
 		case *sdcpb.TypedValue_JsonVal:
 			jsonValue = upd.GetValue().GetJsonVal()
 		case *sdcpb.TypedValue_JsonIetfVal:
@@ -297,7 +296,7 @@ func (c *Converter) ExpandContainerValue(ctx context.Context, p *sdcpb.Path, jv 
 						list = append(list, tvYangType)
 					}
 				default:
-					return nil, fmt.Errorf("leaflist %s expects array as input, but %v of type %v was given", np.String(), x, reflect.TypeOf(x).Name())
+					return nil, fmt.Errorf("leaflist %s expects array as input, but %v of type %T was given", np.String(), x, x)
 				}
 
 				upd := &sdcpb.Update{
@@ -374,7 +373,7 @@ func isKey(s string, cs *sdcpb.SchemaElem_Container) bool {
 }
 
 func TypedValueToYANGType(tv *sdcpb.TypedValue, schemaObject *sdcpb.SchemaElem) (*sdcpb.TypedValue, error) {
-	switch tv.Value.(type) {
+	switch tv.GetValue().(type) {
 	case *sdcpb.TypedValue_AsciiVal:
 		return ConvertToTypedValue(schemaObject, tv.GetAsciiVal(), tv.GetTimestamp())
 	case *sdcpb.TypedValue_BoolVal:
@@ -457,18 +456,16 @@ func convertStringToTv(schemaType *sdcpb.SchemaLeafType, v string, ts uint64) (*
 			Value:     &sdcpb.TypedValue_BoolVal{BoolVal: b},
 		}, nil
 	case "decimal64":
-		arr := strings.SplitN(v, ".", 2)
-		digits, err := strconv.ParseInt(arr[0], 10, 64)
+		d64, err := ParseDecimal64(v)
 		if err != nil {
 			return nil, err
 		}
-		precision64, err := strconv.ParseUint(arr[1], 10, 32)
-		if err != nil {
-			return nil, err
+		if d64 == nil {
+			return nil, fmt.Errorf("invalid decimal64 value %q", v)
 		}
-		precision := uint32(precision64)
 		return &sdcpb.TypedValue{
-			Value: &sdcpb.TypedValue_DecimalVal{DecimalVal: &sdcpb.Decimal64{Digits: digits, Precision: precision}},
+			Timestamp: ts,
+			Value:     &sdcpb.TypedValue_DecimalVal{DecimalVal: d64},
 		}, nil
 	case "identityref":
 		before, name, found := strings.Cut(v, ":")
@@ -511,10 +508,20 @@ func convertStringToTv(schemaType *sdcpb.SchemaLeafType, v string, ts uint64) (*
 			Timestamp: ts,
 			Value:     &sdcpb.TypedValue_StringVal{StringVal: v},
 		}, nil
+	case "empty":
+		return &sdcpb.TypedValue{
+			Timestamp: ts,
+			Value:     &sdcpb.TypedValue_EmptyVal{},
+		}, nil
 	case "": // presence ?
 		return &sdcpb.TypedValue{}, nil
 	}
-	return nil, nil
+	// the remaining types (bits, binary, instance-identifier) are carried as strings, like Convert() does.
+	// Returning no value and no error would silently drop the value.
+	return &sdcpb.TypedValue{
+		Timestamp: ts,
+		Value:     &sdcpb.TypedValue_StringVal{StringVal: v},
+	}, nil
 }
 
 func getItem(ctx context.Context, s string, cs *sdcpb.SchemaElem_Container, scb SchemaClientBound) (any, bool) {
@@ -635,23 +642,23 @@ func ConvertTypedValueToYANGType(schemaElem *sdcpb.SchemaElem, tv *sdcpb.TypedVa
 		case "string", "identityref":
 			return tv, nil
 		case "uint64", "uint32", "uint16", "uint8":
-			i, err := strconv.Atoi(TypedValueToString(tv))
+			i, err := strconv.ParseUint(TypedValueToString(tv), 10, 64)
 			if err != nil {
 				return nil, err
 			}
 			ctv := &sdcpb.TypedValue{
 				Timestamp: tv.GetTimestamp(),
-				Value:     &sdcpb.TypedValue_UintVal{UintVal: uint64(i)},
+				Value:     &sdcpb.TypedValue_UintVal{UintVal: i},
 			}
 			return ctv, nil
 		case "int64", "int32", "int16", "int8":
-			i, err := strconv.Atoi(TypedValueToString(tv))
+			i, err := strconv.ParseInt(TypedValueToString(tv), 10, 64)
 			if err != nil {
 				return nil, err
 			}
 			ctv := &sdcpb.TypedValue{
 				Timestamp: tv.GetTimestamp(),
-				Value:     &sdcpb.TypedValue_IntVal{IntVal: int64(i)},
+				Value:     &sdcpb.TypedValue_IntVal{IntVal: i},
 			}
 			return ctv, nil
 		case "enumeration":
@@ -729,7 +736,7 @@ func convertUpdateTypedValue(_ context.Context, upd *sdcpb.Update, scRsp *sdcpb.
 			return nil, nil
 		}
 		// regular leaf list
-		switch upd.GetValue().Value.(type) {
+		switch upd.GetValue().GetValue().(type) {
 		case *sdcpb.TypedValue_LeaflistVal:
 			return upd, nil
 		default:
